@@ -45,6 +45,27 @@ fn kf10_flatten_error_of_the_pending_inner_arrives_after_the_completion() {
     assert!(e.map_or(true, |e| e > t), "the error is not delivered before the completion (finding KF-10 / C05): {l:?}");
 }
 
+/// KF-10 under C04: the output is over while the late-greeting inner is still subscribed; nobody disposes it, and
+/// when it ends by itself flatten pulls the outer source, which ended long ago.
+#[test]
+fn kf10_flatten_pulls_the_ended_outer_when_the_pending_inner_ends() {
+    let log = new_log();
+    let outer = Puppet::<Source<u32>>::new("outer", &log, true);
+    let inner = Puppet::<u32>::new("i", &log, false);
+    let out: Arc<Source<u32>> = Arc::new(flatten(outer.source()));
+    let s = Probe::<u32>::new("sink", &log);
+    subscribe(&out, s.sink());
+    outer.data(inner.source());
+    outer.end();
+    inner.greet();
+    let before = log_of(&log).len();
+    inner.end();
+    let l = log_of(&log);
+    assert!(l.iter().any(|x| x == "sink<-T"), "early completion (finding KF-10): {l:?}");
+    assert!(!l.iter().any(|x| x == "i<-T"), "the inner that outlived the output is never disposed: {l:?}");
+    assert!(l[before..].iter().any(|x| x == "outer<-P"), "the ended outer is pulled (finding KF-10 / C04): {l:?}");
+}
+
 use callbag::{combine, concat, share, Message};
 
 fn has(l: &[String], x: &str) -> bool {
